@@ -336,6 +336,7 @@ template <size_t L> struct Session : ISession {
             if (tk == "str") rs = cs.str();
             else if (tk == "c_str") rs.assign(cs.c_str(), strnlen(cs.c_str(), L + 1));
             else if (tk == "data") rs = read(cs);
+            else if (tk == "data_mut") { size_t n = s->length(); if (n > L + 1) n = L + 1; rs.assign(s->data(), n); }
             else if (tk == "length") ri = enc(cs.length());
             else if (tk == "empty") ri = cs.empty();
             else if (tk == "ostream") { std::ostringstream os; os << cs; rs = os.str(); }
@@ -369,7 +370,17 @@ template <size_t L> struct Session : ISession {
             } else if (tk == "back_from") {            // walk towards the front with operator-- until it reports the end
                auto i = cit(p1); auto e = s->cend();
                for (; i != e && steps < maxsteps; --i, ++steps) rs.push_back(*i);
+            } else if (tk == "rback_from") {           // reverse iterator walking back towards rbegin() with operator--
+               auto i = s->crbegin(); i += p1; auto e = s->crend();
+               if (sk == "mut") { auto j = s->rbegin(); j += p1; auto je = s->rend(); for (; j != je && steps < maxsteps; --j, ++steps) rs.push_back(*j); }
+               else for (; i != e && steps < maxsteps; --i, ++steps) rs.push_back(*i);
             } else if (tk == "diff") ri = enc(cit(c1) - cit(p1));
+            else if (tk == "minus_eq") { auto i = mit(*s, c1); i -= p1; ri = static_cast<unsigned char>(*i); }
+            else if (tk == "rindex") { auto i = s->rbegin(); i += p1; ri = static_cast<unsigned char>(i[c1]); }
+            else if (tk == "cmp") {
+               const auto x = cit(p1), y = cit(c1);
+               ri = (x < y ? 1 : 0) + (x <= y ? 2 : 0) + (x > y ? 4 : 0) + (x >= y ? 8 : 0) + (x == y ? 16 : 0) + (x != y ? 32 : 0);
+            }
             else if (tk == "index") { auto i = mit(*s, p1); ri = static_cast<unsigned char>(i[c1]); }
             else unsupported(a);
          } else unsupported(a);
@@ -476,11 +487,11 @@ static std::vector<Combo> combos() {
    add("ends_with", {"none"}, {"cstr", "str", "fs", "fs2", "ch"});
    add("contains", {"none"}, {"cstr", "str", "fs", "fs2", "ch"});
    add("rel", {"eq", "ne"}, {"fs", "fs2"});
-   add("obs", {"str", "c_str", "data", "length", "empty", "ostream"}, {"none"});
+   add("obs", {"str", "c_str", "data", "data_mut", "length", "empty", "ostream"}, {"none"});
    add("get", {"at", "idx", "front", "back"}, {"mut", "const"});
-   add("iter", {"fwd", "fwd_post", "rev", "rev_post", "dist", "rdist", "deref", "rderef", "back_from"}, {"mut", "const", "c"});
-   add("iter", {"diff"}, {"const"});
-   add("iter", {"index"}, {"mut"});
+   add("iter", {"fwd", "fwd_post", "rev", "rev_post", "dist", "rdist", "deref", "rderef", "back_from", "rback_from"}, {"mut", "const", "c"});
+   add("iter", {"diff", "cmp"}, {"const"});
+   add("iter", {"index", "rindex", "minus_eq"}, {"mut"});
    return v;
 }
 
@@ -592,8 +603,9 @@ struct Gen {
          if (tk == "at" && op == "get") a.p1 = pos(len, L);
          else a.p1 = static_cast<long long>(len > 0 ? rng.below(len) : 0);
          if (op == "get" && tk == "idx") a.p1 = static_cast<long long>(rng.below(len + 1));
-         if (tk == "diff") { a.c1 = static_cast<long long>(len > 0 ? rng.below(len) : 0); if (a.c1 < a.p1) std::swap(a.c1, a.p1); }
-         if (tk == "index") a.c1 = static_cast<long long>(len > static_cast<size_t>(a.p1) ? rng.below(len - static_cast<size_t>(a.p1)) : 0);
+         if (tk == "diff" || tk == "minus_eq") { a.c1 = static_cast<long long>(len > 0 ? rng.below(len) : 0); if (a.c1 < a.p1) std::swap(a.c1, a.p1); }
+         if (tk == "index" || tk == "rindex") a.c1 = static_cast<long long>(len > static_cast<size_t>(a.p1) ? rng.below(len - static_cast<size_t>(a.p1)) : 0);
+         if (tk == "cmp") { a.p1 = static_cast<long long>(rng.below(len + 1)); a.c1 = static_cast<long long>(rng.below(len + 1)); }
          (void)unchecked;
       }
       return a;
@@ -604,7 +616,8 @@ static bool applicable(const Combo& c, size_t len) {
    // calls that the documentation declares undefined (or that need an existing character) are not generated
    const std::string op = c.op, tk = c.tk;
    if (op == "set") return len > 0;
-   if (op == "iter" && (tk == "deref" || tk == "rderef" || tk == "back_from" || tk == "diff" || tk == "index")) return len > 0;
+   if (op == "iter" && (tk == "deref" || tk == "rderef" || tk == "back_from" || tk == "rback_from" || tk == "diff" || tk == "index"
+                        || tk == "rindex" || tk == "minus_eq")) return len > 0;
    return true;
 }
 
